@@ -877,3 +877,96 @@ def _monitor_c07(case, out):
                         return Failure("monitor", "%s after positioning on %r: %s differs from the sequential scan" % (op, pending["name"], k))
                 pending = None
     return None
+
+
+# ------------------------------------------------------------------------------------------------
+# alignment databases (second half of C07): esl-afetch index + fetch, harness + monitor only
+# ------------------------------------------------------------------------------------------------
+def fnv1a(b):
+    h = 0xcbf29ce484222325
+    for c in b:
+        h = ((h ^ c) * 0x100000001b3) & 0xFFFFFFFFFFFFFFFF
+    return h
+
+
+def gen_stockholm_db(rng, tier="quick"):
+    """Multi-alignment Stockholm file of 1..50 alignments with unique names, optional unique accessions (aliases), names that
+    are prefixes of each other. Returns (bytes, entries) with entries = [(name, acc, [candidate record texts])]."""
+    nali = rng.choice([1, 2, 3, 5, 10, 50 if tier != "quick" else 20])
+    eol = "\r\n" if rng.random() < 0.15 else "\n"
+    used = set()
+    out, ents = [], []
+    for i in range(nali):
+        name = "".join(c for c in rand_name(rng, used) if c not in " \t") or "a%d" % i
+        acc = ""
+        if rng.random() < 0.5:
+            acc = "PF%05d" % rng.randrange(100000)
+            while acc in used:
+                acc = "RF%05d" % rng.randrange(100000)
+            used.add(acc)
+        nseq = rng.randrange(1, 6)
+        alen = rng.randrange(1, 70)
+        lead = eol * rng.choice([0, 0, 0, 1, 2]) if i > 0 else ""
+        body = "# STOCKHOLM 1.0" + eol
+        if rng.random() < 0.3:
+            body += eol
+        body += "#=GF ID " + name + eol
+        if acc:
+            body += "#=GF AC " + acc + eol
+        if rng.random() < 0.3:
+            body += "#=GF DE " + rand_desc(rng).replace("\x01", " ") + eol
+        for j in range(nseq):
+            body += "s%d%s %s%s" % (j, "x" * rng.randrange(0, 4), "".join(rng.choice("ACGU-.acgu") for _ in range(alen)), eol)
+        if rng.random() < 0.3:
+            body += "#=GC SS_cons " + "." * alen + eol
+        body += "//" + eol
+        out.append(lead + body)
+        norm = lambda t: t.replace("\r\n", "\n").encode("latin-1")
+        ents.append((name, acc, [norm(body), norm(lead + body)]))
+    return "".join(out).encode("latin-1"), ents
+
+
+def afetch_case(rng, tier, idx):
+    data, ents = gen_stockholm_db(rng, tier)
+    keys, expect = [], []
+    pool = list(ents)
+    rng.shuffle(pool)
+    for name, acc, texts in pool[:12]:
+        keys.append(name.encode()); expect.append([(fnv1a(t), len(t)) for t in texts])
+        if acc:
+            keys.append(acc.encode()); expect.append([(fnv1a(t), len(t)) for t in texts])
+    allk = {e[0] for e in ents} | {e[1] for e in ents if e[1]}
+    for cand in ("nope", ents[0][0] + "x", ents[0][0][:-1], "PF", ""):
+        if cand and cand not in allk:
+            keys.append(cand.encode()); expect.append(None)
+    return {"name": "afetch%d" % idx, "sticky": 1, "ops": ["afetch hex=%s keys=%s" % (hx(data), ",".join(hx(k) for k in keys))],
+            "meta": {"afetch": {"nali": len(ents), "keys": [hx(k) for k in keys], "expect": expect}}}
+
+
+def monitor_afetch(case, out):
+    from vlib.engine import Failure
+    m = (case.get("meta") or {}).get("afetch")
+    if not m or not out:
+        return None
+    l = out[0]
+    if not l.startswith("ok nali="):
+        if l.startswith(("fault", "atexit")):
+            return None
+        return Failure("monitor", "indexing / opening a well-formed alignment database failed: " + l[:80])
+    st, d = kv(l)
+    if int(d["nali"]) != m["nali"]:
+        return Failure("monitor", "sequential scan found %s alignments, the file has %d" % (d["nali"], m["nali"]))
+    res = [x for x in d.get("r", "").split(",") if x]
+    if len(res) != len(m["keys"]):
+        return Failure("monitor", "afetch answered %d keys of %d" % (len(res), len(m["keys"])))
+    for r, k, exp in zip(res, m["keys"], m["expect"]):
+        kk, status, h, n = r.split(":")
+        if exp is None:
+            if status != "enotfound":
+                return Failure("monitor", "alignment fetch of absent key %r returned %s" % (unhx(k), status))
+        else:
+            if status != "ok":
+                return Failure("monitor", "alignment fetch of key %r failed: %s" % (unhx(k), status))
+            if (int(h), int(n)) not in [tuple(e) for e in exp]:
+                return Failure("monitor", "alignment fetched for key %r (%s bytes) is not the alignment of that name/accession (%d bytes)" % (unhx(k), n, exp[0][1]))
+    return None
